@@ -258,6 +258,10 @@ class Variable:
             else:
                 labels = [self.name]
         elif self.kind == "categoric":
-            labels = [f"{self.name}[{label}]" for label in self.contrast_matrix.labels]
+            if self.is_response and self.reference is not None:
+                # 'variable[level]' has a single column and no contrast matrix
+                labels = [f"{self.name}[{self.reference}]"]
+            else:
+                labels = [f"{self.name}[{label}]" for label in self.contrast_matrix.labels]
 
         return labels
